@@ -176,6 +176,25 @@ def handle (op : String) (args : List String) (impl : String) : Option Verdict :
         | none => false
       | _ => false
     return ⟨model, ok, s!"hist:ops={min ops.length 6 / 2}:sequential={sequential}:executedSeen={run.any fun x => (List.range n).any fun k => lookup x.2.m k == Status.executed}"⟩
+  | "retryv2", [lis, src, dst, height, res] => some <| Id.run do
+    let some lis := lis.toNat? | return bad
+    let some src := src.toNat? | return bad
+    let some dst := dst.toNat? | return bad
+    let some height := height.toNat? | return bad
+    let some res := res.toNat? | return bad
+    let r := retryV2 lis src dst height res
+    let model := s!"{r.msgSource},{r.msgDest},RetryMessage|{r.src},{r.dst},{r.height},{r.res}"
+    let ok := match impl.splitOn "|" with
+      | [hd, body] =>
+        match hd.splitOn ",", natList body with
+        | [ms, md, ty], some [a, b, c, d] =>
+          ty == "RetryMessage" &&
+          (match ms.toNat?, md.toNat? with
+           | some ms, some md => decide (PRequest src dst height res ⟨ms, md, a, b, c, d⟩)
+           | _, _ => false)
+        | _, _ => false
+      | _ => false
+    return ⟨model, ok, "retryv2"⟩
   | "outcome", [acc, init, ns, faults] => some <| Id.run do
     let some sts := (chars init).mapM statusOf | return bad
     let some ns := natList ns | return bad
